@@ -213,6 +213,15 @@ prop("C31",
      residual="spill writing and blocking check (set_cells_with_result), clearing before re-evaluation, reset before structural edits, staleness across evaluation passes")
 
 
+prop("C19",
+     units=["numsign"],
+     level="proof",
+     claim="sign slice only: every accepting path of the `-<currency><number>` case of parse_formatted_number stores the negated magnitude, and the "
+           "`<currency><number>` case stores the magnitude as parsed",
+     assumptions=["parse_number (decimal text -> f64) is a stub returning an opaque magnitude", "R: unary minus on f64 is read as a shim with an uninterpreted negation relation"],
+     residual="everything else in C19: which texts are recognised as numbers, the value of the digits, group separators, percent scaling, dates, the format chosen")
+
+
 def evidence(pid, tier, seed, results, scan_results, kani_results, violations, known_hits, undecided, wall):
     P = PROPS[pid]
     obligations = 0
